@@ -187,6 +187,81 @@ def run_case(case, ctx):
         ctx.sample(common.describe(case, {"p": p, "variants": n, "sequence": k + 1}), "aligned" if case["cfg"]["align"] else "packed")
 
 
+# ---------------------------------------------------------------- dynamically sized unions (read-only in the library)
+
+DYN_MEMBERS = [
+    "struct {{ uint8 len; char data[len]; }} {n};", "struct {{ uint8 len; uint16 v[len]; uint8 t; }} {n};", "uint8 {n}[];", "char {n}[];",
+    "uint16 {n};", "uint32 {n};", "struct {{ uint8 k; struct {{ uint8 m; char s[m]; }} in[k]; }} {n};", "uleb128 {n};",
+]
+
+
+@st.composite
+def dynunion_case(draw):
+    members = draw(st.lists(st.sampled_from(DYN_MEMBERS), min_size=1, max_size=3))
+    if not any("[" in m_ or "leb" in m_ for m_ in members):
+        members.append(DYN_MEMBERS[0])
+    body = " ".join(m_.format(n=f"m{i}") for i, m_ in enumerate(members))
+    pre = draw(st.sampled_from(["", "uint8 p0;", "uint16 p0; uint8 p1;", "char p0[3];"]))
+    post = draw(st.sampled_from(["", "uint8 q0;", "uint16 q0;"]))
+    top = draw(st.booleans()) and not pre and not post
+    text = f"union Root {{ {body} }};" if top else f"struct Root {{ {pre} union {{ {body} }} u; {post} }};"
+    data = bytearray(draw(st.binary(min_size=24, max_size=40)))
+    for i in range(0, len(data), 3):
+        data[i] %= 4  # keep embedded lengths small so that most inputs parse
+    p = draw(st.integers(0, 24))
+    return {"dynunion": True, "text": text, "data": bytes(data).hex(), "p": p, "prefix": draw(st.binary(min_size=p, max_size=p)).hex(),
+            "suffix": draw(st.binary(max_size=8)).hex(), "compiled": draw(st.booleans()), "endian": draw(st.sampled_from("<>"))}
+
+
+def _run_dynunion(case, ctx):
+    from pbt.drive import import_repo
+
+    m = import_repo()
+    cs = m.cstruct(endian=case["endian"])
+    r = lib(cs.load, case["text"], compiled=case["compiled"])
+    if isinstance(r, Err):
+        raise Violation("definition-rejected", f"{case['text']}: {r}", r.where)
+    T = cs.Root
+    data = bytes.fromhex(case["data"])
+    s0 = io.BytesIO(data)
+    base = lib(T, s0)
+    if isinstance(base, Err):
+        ctx.count("dynunion:baseline-raised:" + base.type)
+        return
+    bval, t0 = libside.cplain(base), s0.tell()
+    p, prefix, suffix = case["p"], bytes.fromhex(case["prefix"]), bytes.fromhex(case["suffix"])
+    whole = prefix + data + suffix
+    for kind, mk in (("BytesIO", lambda: io.BytesIO(whole)), ("minimal-filelike", lambda: MinimalStream(whole, 0))):
+        x = mk()
+        x.seek(p)
+        r = lib(T.read, x)
+        what = {"input_kind": kind, "p": p, "definition": case["text"], "data": case["data"], "prefix": case["prefix"]}
+        if isinstance(r, Err):
+            raise Violation("variant-raised", f"{what}: {r}; at offset 0 the same bytes give {bval!r}", r.where)
+        if libside.cplain(r) != bval:
+            raise Violation("value-differs", f"{what}: {libside.cplain(r)!r} vs {bval!r} at offset 0")
+        if x.tell() != p + t0:
+            raise Violation("position-wrong", f"{what}: stream left at {x.tell()}, expected p + {t0} = {p + t0}")
+    # (no back-to-back sequence here: a dynamic union's value may depend on bytes beyond the position it leaves the
+    # stream at - its recorded extent is the end of its last member - so concatenating extents is not meaningful)
+    ctx.count("dynunion:checked")
+    if p > 0:
+        ctx.mark_nontrivial(case)
+        ctx.sample({"definition": case["text"], "p": p, "data": case["data"]}, "dynunion")
+
+
+_run_case_static = run_case
+
+
+def run_case(case, ctx):  # noqa: F811 - dispatch on the case kind
+    if case.get("dynunion"):
+        return _run_dynunion(case, ctx)
+    return _run_case_static(case, ctx)
+
+
 def stages(tier):
     q = tier == "quick"
-    return [HypStage("streams", stream_case, examples=350 if q else 3000, shards=10 if q else 16)]
+    return [
+        HypStage("streams", stream_case, examples=350 if q else 3000, shards=10 if q else 16),
+        HypStage("dynamic-unions", dynunion_case, examples=400 if q else 4000, shards=2 if q else 4),
+    ]
